@@ -178,3 +178,81 @@ package standard
 //@ loop #3
 //@ invariant [range] 0 <= _n && _n <= len(results)
 //@ invariant [live] forall j int :: 0 <= j && j < _n ==> results[j] == core.ResultUnknown || results[j] == core.ResultSucceeded
+
+// ---- Multisign (generic data): same structure as SignBeaconAttestations ----
+
+//@ spec genDataOK(d *rules.SignData) bool = d != nil && d.Data != nil && d.Domain != nil
+//@ spec genPending(acc any, d *rules.SignData) bool = acc != nil && pkOfAcc(acc) in tokroot && tokroot[pkOfAcc(acc)] == genRootOf(d)
+
+//@ func checkSignData
+//@ flag noalloc
+//@ ensures [ok] result == nil ==> genDataOK(data)
+
+//@ func (*Service).Multisign$1
+//@ worker i offset entries
+//@ requires s != nil && credentials != nil
+//@ requires [extent] 0 <= offset && entries >= 1 && offset + entries <= len(rulesData)
+//@ requires [lens] len(accounts) == len(rulesData) && len(rulesData) <= len(results) && len(rulesData) <= len(data)
+//@ requires [blank] forall j int :: offset <= j && j < offset + entries ==> rulesData[j] == nil
+//@ modifies checkedset, results[offset:offset+entries], rulesData[offset:offset+entries], accounts[offset:offset+entries]
+//@ ensures-each [ok] rulesData[i] != nil ==> results[i] == old(results[i]) && prechecked(s, credentials.Client, rulesData[i], accounts[i], nameAt(accountNames, i), keyAt(pubKeys, i), ruler.ActionSign) && hastype(rulesData[i].Data, "*rules.SignData") && unbox(rulesData[i].Data, "*rules.SignData") == data[i]
+//@ ensures-each [failed] rulesData[i] == nil ==> results[i] == core.ResultDenied || results[i] == core.ResultFailed
+//@ loop #1
+//@ invariant [range] offset <= i && i <= offset + entries
+//@ invariant [ok-res] forall j int :: offset <= j && j < i && rulesData[j] != nil ==> results[j] == old(results[j])
+//@ invariant [ok-acc] forall j int :: offset <= j && j < i && rulesData[j] != nil ==> accounts[j] != nil && accounts[j] == resolved(s, nameAt(accountNames, j), keyAt(pubKeys, j))
+//@ invariant [ok-names] forall j int :: offset <= j && j < i && rulesData[j] != nil ==> rulesData[j].WalletName == nameOf(walletOf(accounts[j])) && rulesData[j].AccountName == nameOf(accounts[j])
+//@ invariant [ok-pk] forall j int :: offset <= j && j < i && rulesData[j] != nil ==> bytes(rulesData[j].PubKey) == pkOfAcc(accounts[j])
+//@ invariant [ok-chk] forall j int :: offset <= j && j < i && rulesData[j] != nil ==> ckey(credentials.Client, rulesData[j].WalletName, rulesData[j].AccountName, ruler.ActionSign) in checkedset
+//@ invariant [ok-data] forall j int :: offset <= j && j < i && rulesData[j] != nil ==> hastype(rulesData[j].Data, "*rules.SignData") && unbox(rulesData[j].Data, "*rules.SignData") == data[j]
+//@ invariant [failed] forall j int :: offset <= j && j < i && rulesData[j] == nil ==> results[j] == core.ResultDenied || results[j] == core.ResultFailed
+//@ invariant [rest] forall j int :: i <= j && j < offset + entries ==> rulesData[j] == nil
+//@ invariant [frame] forall j int :: !(offset <= j && j < i) ==> results[j] == old(results[j]) && rulesData[j] == old(rulesData[j]) && accounts[j] == old(accounts[j])
+//@ invariant [mono] forall k string :: old(k in checkedset) ==> k in checkedset
+
+//@ func (*Service).Multisign$2
+//@ worker i offset entries
+//@ requires s != nil
+//@ requires [extent] 0 <= offset && entries >= 1 && offset + entries <= len(rulesResults)
+//@ requires [lens] len(rulesResults) <= len(results) && len(signatures) == len(results) && len(data) == len(results)
+//@ requires [verdicts] forall j int :: offset <= j && j < offset + entries ==> rulesResults[j] == rules.UNKNOWN || rulesResults[j] == rules.APPROVED || rulesResults[j] == rules.DENIED || rulesResults[j] == rules.FAILED
+//@ requires [dataok] forall j int :: 0 <= j && j < len(data) ==> genDataOK(data[j])
+//@ requires [approved] forall j int :: offset <= j && j < offset + entries && rulesResults[j] == rules.APPROVED ==> j < len(accounts) && genPending(accounts[j], data[j]) && prefix4(data[j].Domain) != ATT && prefix4(data[j].Domain) != PROP
+//@ requires [distinct] forall j int, k int :: offset <= j && j < k && k < offset + entries && rulesResults[j] == rules.APPROVED && rulesResults[k] == rules.APPROVED ==> pkOfAcc(accounts[j]) != pkOfAcc(accounts[k])
+//@ requires [nosig] forall j int :: offset <= j && j < offset + entries ==> signatures[j] == nil
+//@ modifies results[offset:offset+entries], signatures[offset:offset+entries], each(i, offset, offset+entries, rulesResults[i] == rules.APPROVED, tokroot[pkOfAcc(accounts[i])])
+//@ ensures-each [failclosed] (results[i] == core.ResultSucceeded) <==> (signatures[i] != nil)
+//@ ensures-each [exact] results[i] == core.ResultSucceeded ==> rulesResults[i] == rules.APPROVED && validSig(pkOfAcc(accounts[i]), genRootOf(data[i]), bytes(signatures[i]))
+//@ loop #1
+//@ invariant [range] offset <= i && i <= offset + entries
+//@ invariant [failclosed] forall j int :: offset <= j && j < i ==> ((results[j] == core.ResultSucceeded) <==> (signatures[j] != nil))
+//@ invariant [exact] forall j int :: offset <= j && j < i && results[j] == core.ResultSucceeded ==> rulesResults[j] == rules.APPROVED && validSig(pkOfAcc(accounts[j]), genRootOf(data[j]), bytes(signatures[j]))
+//@ invariant [pending] forall j int :: i <= j && j < offset + entries && rulesResults[j] == rules.APPROVED ==> genPending(accounts[j], data[j])
+//@ invariant [nosig] forall j int :: i <= j && j < offset + entries ==> signatures[j] == nil
+//@ invariant [sigalloc] forall j int :: offset <= j && j < i ==> allocated(signatures[j])
+//@ invariant [frame] forall j int :: !(offset <= j && j < i) ==> results[j] == old(results[j]) && signatures[j] == old(signatures[j])
+//@ invariant [tokframe] forall k Bytes :: (forall j int :: !(offset <= j && j < i && rulesResults[j] == rules.APPROVED && k == pkOfAcc(accounts[j]))) ==> ((k in tokroot) <==> old(k in tokroot)) && tokroot[k] == old(tokroot[k])
+//@ hint-after generateSigningRoot@1 [root] result1 == nil ==> bytes(result0) == genRootOf(data[i])
+//@ hint-after before:signRoot@1 [sametok] genPending(accounts[i], data[i])
+
+//@ func (*Service).Multisign
+//@ requires s != nil
+//@ requires [lens] len(accountNames) <= len(data) && len(pubKeys) <= len(data)
+//@ modifies tokroot, db, checkedset
+//@ ensures [len] len(result0) >= 1 && (len(result1) == 0 || len(result1) == len(result0)) && (len(data) > 0 ==> len(result0) == len(data))
+//@ ensures [failclosed] forall i int :: 0 <= i && i < len(result0) ==> ((result0[i] == core.ResultSucceeded) <==> (i < len(result1) && result1[i] != nil))
+//@ ensures [exact] forall i int :: 0 <= i && i < len(result0) && result0[i] == core.ResultSucceeded ==> i < len(data) && validSig(pkOfAcc(resolved(s, nameAt(accountNames, i), keyAt(pubKeys, i))), genRootOf(data[i]), bytes(result1[i]))
+//@ ensures [notslashable] forall i int :: 0 <= i && i < len(result0) && result0[i] == core.ResultSucceeded ==> i < len(data) && prefix4(data[i].Domain) != ATT && prefix4(data[i].Domain) != PROP
+//@ loop #1
+//@ invariant [range] 0 <= _n && _n <= len(results) && len(results) == len(data) && fresh(results)
+//@ invariant [unknown] forall j int :: 0 <= j && j < _n ==> results[j] == core.ResultUnknown
+//@ loop #2
+//@ invariant [range] 0 <= _n && _n <= len(results) && len(results) == len(data) && fresh(results)
+//@ invariant [denied] forall j int :: 0 <= j && j < _n ==> results[j] == core.ResultDenied
+//@ loop #3
+//@ invariant [range] 0 <= _n && _n <= len(data)
+//@ invariant [ok] forall j int :: 0 <= j && j < _n ==> genDataOK(data[j])
+//@ invariant [unknown] forall j int :: 0 <= j && j < len(results) ==> results[j] == core.ResultUnknown
+//@ loop #4
+//@ invariant [range] 0 <= _n && _n <= len(results)
+//@ invariant [live] forall j int :: 0 <= j && j < _n ==> results[j] == core.ResultUnknown || results[j] == core.ResultSucceeded
